@@ -649,43 +649,82 @@ func c01CastToBool(r *core.Run, p *core.Program) {
 	if !okEmpty {
 		bad = append(bad, "the empty item is not tested first and answered with false")
 	}
-	// (2) loop over the bytes before the last: non-zero -> true
+	// (2) loop over the bytes before the last: non-zero -> true.  Two loop forms: an index i = 0,1,.. with
+	// i < len(d)-1 reading d[i], or a range over the prefix d[:len(d)-1]
 	okLoop := false
-	for _, ld := range otherLoads {
-		ia := ld.X.(*ssa.IndexAddr)
-		phi, isPhi := ia.Index.(*ssa.Phi)
-		if !isPhi {
+	const lastIdx = "(builtin.len(param#0) - 1)"
+	for _, b := range fn.Blocks {
+		iff, isIf := b.Instrs[len(b.Instrs)-1].(*ssa.If)
+		if !isIf {
 			continue
 		}
-		start, step := false, false
-		for _, e := range phi.Edges {
-			switch an.Expr(e) {
-			case "0":
-				start = true
-			case "(" + an.Expr(phi) + " + 1)":
-				step = true
+		x, y, rel, okc := an.CondCmp(iff.Cond)
+		if !okc || an.Expr(y) != "0" {
+			continue
+		}
+		ld, isLd := x.(*ssa.UnOp)
+		if !isLd || ld.Op != token.MUL {
+			continue
+		}
+		ia, isIA := ld.X.(*ssa.IndexAddr)
+		if !isIA {
+			continue
+		}
+		idx := an.Expr(ia.Index)
+		base := an.Expr(ia.X)
+		cs := an.DomConds(b)
+		covered := false
+		switch {
+		case base == "param#0":
+			covered = an.HasCond(cs, "("+idx+" < "+lastIdx+")", true)
+		case base == "param#0[:"+lastIdx+"]" || base == "param#0[0:"+lastIdx+"]":
+			covered = an.HasCond(cs, "("+idx+" < builtin.len("+base+"))", true)
+		}
+		// the index runs 0,1,2,...: a phi starting at 0 stepping by one, or the range form (phi from -1) + 1
+		counts := false
+		if phi, isPhi := ia.Index.(*ssa.Phi); isPhi {
+			st, sp := false, false
+			for _, e := range phi.Edges {
+				switch an.Expr(e) {
+				case "0":
+					st = true
+				case "(" + an.Expr(phi) + " + 1)":
+					sp = true
+				}
+			}
+			counts = st && sp
+		} else if bo, isB := ia.Index.(*ssa.BinOp); isB && bo.Op == token.ADD && an.Expr(bo.Y) == "1" {
+			if phi, isPhi := bo.X.(*ssa.Phi); isPhi {
+				st, sp := false, false
+				for _, e := range phi.Edges {
+					switch {
+					case an.Expr(e) == "-1":
+						st = true
+					case e == ssa.Value(bo):
+						sp = true
+					}
+				}
+				counts = st && sp
 			}
 		}
-		bounded := an.HasCond(an.DomConds(ld.Block()), "("+an.Expr(phi)+" < (builtin.len(param#0) - 1))", true)
-		b := ld.Block()
-		iff, isIf := b.Instrs[len(b.Instrs)-1].(*ssa.If)
-		if !start || !step || !bounded || !isIf {
+		if !covered || !counts {
 			continue
 		}
-		c := an.Expr(iff.Cond)
-		e := an.Expr(ld)
 		tgt := -1
-		if c == "("+e+" != 0)" || c == "("+e+" > 0)" {
+		switch rel {
+		case token.NEQ, token.GTR:
 			tgt = 0
-		} else if c == "("+e+" == 0)" {
+		case token.EQL:
 			tgt = 1
 		}
 		if tgt >= 0 {
-			if ret, ok := b.Succs[tgt].Instrs[len(b.Succs[tgt].Instrs)-1].(*ssa.Return); ok && len(b.Succs[tgt].Instrs) == 1 && an.Expr(ret.Results[0]) == "true" {
+			sb := b.Succs[tgt]
+			if ret, ok := sb.Instrs[len(sb.Instrs)-1].(*ssa.Return); ok && len(sb.Instrs) == 1 && an.Expr(ret.Results[0]) == "true" {
 				okLoop = true
 			}
 		}
 	}
+	_ = otherLoads
 	if !okLoop {
 		bad = append(bad, "no loop over the bytes 0..len-2 that answers true for a non-zero byte")
 	}
